@@ -27,7 +27,17 @@ var metricsMu sync.Mutex
 func readMetrics() map[string]string {
 	metricsMu.Lock()
 	defer metricsMu.Unlock()
+	return readMetricsUnserialised()
+}
+
+// readMetricsUnserialised is one GET of the endpoint; concurrent callers are
+// concurrent requests to the endpoint.
+func readMetricsUnserialised() map[string]string {
 	runtime.GC() // the endpoint's GC-pause summary needs at least one completed GC
+	return readMetricsNoGC()
+}
+
+func readMetricsNoGC() map[string]string {
 	rec := httptest.NewRecorder()
 	req := httptest.NewRequest("GET", "/metrics", nil)
 	http.DefaultServeMux.ServeHTTP(rec, req)
@@ -417,6 +427,84 @@ func TestC18PollRace(t *testing.T) {
 		}
 	}
 	rec.Sample(true, map[string]interface{}{"poll_race_rounds": rounds, "burst": 33200, "small_value_pace_us": "2..13"})
+}
+
+// TestC18Pollers: several readers of the metrics endpoint at once (two
+// monitoring systems scraping the same process) next to observers.  Every
+// report must be consistent in itself, and over all reports of all readers the
+// counts must add up to the observations made.
+func TestC18Pollers(t *testing.T) {
+	c18Setup()
+	rec := evid.For("C18")
+	rounds := 4
+	if thorough() {
+		rounds = 40
+	}
+	for round := 0; round < rounds; round++ {
+		readMetrics()
+		pollers := []int{2, 4, 3, 8}[round%4]
+		observers := 4
+		var made uint64
+		var stop, stopObs int32
+		var mu sync.Mutex
+		var total uint64
+		reads := 0
+		problem := ""
+		var pwg, owg sync.WaitGroup
+		for p := 0; p < pollers; p++ {
+			pwg.Add(1)
+			go func() {
+				defer pwg.Done()
+				for atomic.LoadInt32(&stop) == 0 {
+					hp := readHist(readMetricsNoGC(), "verif_c18_plain")
+					mu.Lock()
+					total += hp.Count
+					reads++
+					if hp.HasPctls && hp.Count > 0 {
+						lo, hi := hp.Pctls["percentile0"], hp.Pctls["percentile100"]
+						for _, pt := range pctlTags {
+							if v := hp.Pctls[pt]; v < lo || v > hi {
+								problem = fmt.Sprintf("a report of %d observations has %s = %d outside [min %d, max %d]", hp.Count, pt, v, lo, hi)
+							}
+						}
+					}
+					mu.Unlock()
+				}
+			}()
+		}
+		for w := 0; w < observers; w++ {
+			owg.Add(1)
+			go func(w int) {
+				defer owg.Done()
+				n := uint64(0)
+				for i := 0; atomic.LoadInt32(&stopObs) == 0; i++ {
+					metrics.ObserveHist(c18Hist, uint64(1000+w*100000000+i))
+					n++
+					if i%4096 == 0 {
+						runtime.Gosched()
+					}
+				}
+				atomic.AddUint64(&made, n)
+			}(w)
+		}
+		time.Sleep(1500 * time.Millisecond) // observers and readers overlap for this long
+		atomic.StoreInt32(&stopObs, 1)
+		owg.Wait()
+		atomic.StoreInt32(&stop, 1)
+		pwg.Wait()
+		hp := readHist(readMetrics(), "verif_c18_plain")
+		total += hp.Count
+		rec.Case(reads >= 2*pollers, fmt.Sprintf("pollers|%d|%d|%d", pollers, round, reads), "hist-concurrent-readers")
+		if problem != "" {
+			p := rec.Violation("TestC18Pollers", map[string]interface{}{"pollers": pollers, "problem": problem})
+			t.Fatalf("C18 with %d concurrent readers of the endpoint: %s; replay %s", pollers, problem, p)
+		}
+		if total != made {
+			p := rec.Violation("TestC18Pollers", map[string]interface{}{"pollers": pollers, "observed": made, "reported_sum": total, "reads": reads})
+			t.Fatalf("C18 with %d concurrent readers: %d observations made, the counts of all %d reports sum to %d; replay %s", pollers, made, reads+1, total, p)
+		}
+	}
+	rec.Sample(true, map[string]interface{}{"concurrent_endpoint_readers": "2..8", "observers": 4, "seconds_per_round": 1.5})
 }
 
 // TestC18Concurrent: concurrent observers and a concurrent reader; no
